@@ -201,6 +201,18 @@ def run(ck):
             u(addn[0].value) == 'molecule.add_node(res_idx, **node)'
     ck.ob('PROV-rebuild', mod.loc(fl[0]), ok, 'a rebuilt atom starts from the attributes shared by the residue and is then overwritten with the block atom\'s own attributes '
           '(name, element, ...; the block\'s resid excepted), so the block atom wins', key='PROV-rebuild|attributes')
+    unrecognised_rules(ck, 'PROV-unrecognised')
+    shared.reference_residue_rules(ck, 'PROV-reference')
+    shared.truthy_zero(ck, [RG])
+    shared.runs_every_molecule(ck, 'vermouth/processors/repair_graph.py', 'RepairGraph', 'MPT-every-molecule')
+    ck.assume('that the search returns a largest match and that the result is invariant under renaming/permutation depend on the ISMAGS search outcome (C06, not applicable)')
+
+
+def unrecognised_rules(ck, rule):
+    """repair_graph(): which atoms are labelled unrecognised (PTM_atom) -- shared by C04 and C14."""
+    mod = ck.index.mod(RG)
+    rg = mod.func('repair_graph')
+    ck.analysed(mod, rg)
     # ------------------------------------------------------------ PROV: unrecognised = complement of the match
     ex = single_def(rg, 'extra')
     ok = ex is not None and u(ex) == 'set(found.nodes) - set(match.values())'
@@ -210,13 +222,14 @@ def run(ck):
         marks = [s for s in lps[0].body if isinstance(s, ast.Assign) and "['PTM_atom']" in u(s.targets[0]) and try_fold(s.value) is True]
         ok = len(marks) == 2 and all(unconditional_in(rg, lps[0].body, s) for s in marks)
     other_marks = [s for s in ast.walk(rg) if isinstance(s, ast.Assign) and "['PTM_atom']" in u(s.targets[0]) and not (lps and any(s is n for n in ast.walk(lps[0])))]
-    ck.ob('PROV-unrecognised', mod.loc(rg), ok and not other_marks, 'exactly the atoms of the residue outside the match are marked unrecognised', key='PROV-unrecognised|complement')
+    ck.ob(rule, mod.loc(rg), ok and not other_marks, 'exactly the atoms of the residue outside the match are marked unrecognised', key=rule + '|complement')
+    rloop = [l for l in rg.body if isinstance(l, ast.For) and u(l.iter) == 'reference_graph']
+    ok_all = len(rloop) == 1 and bool(lps) and unconditional_in(rg, rloop[0].body, lps[0]) and \
+        not any(isinstance(n, (ast.Break, ast.Return)) for n in ast.walk(rloop[0]))
+    ck.ob(rule, mod.loc(rg), ok_all, 'the marking runs for every residue of the reference graph, unconditionally (no residue is skipped on a count or a shortcut)',
+          key=rule + '|every-residue')
     fd = [s for s in ast.walk(rg) if isinstance(s, ast.Assign) and u(s.targets[0]) in ('found', 'match')]
     ok = {u(s.targets[0]): u(s.value) for s in fd} == {'found': "reference_graph.nodes[residx]['found']", 'match': "reference_graph.nodes[residx]['match']"}
     call_rr = [s for s in ast.walk(rg) if isinstance(s, ast.Expr) and call_name(s.value) == 'repair_residue']
     ok = ok and len(call_rr) == 1 and all(call_rr[0].lineno < s.lineno for s in fd)
-    ck.ob('PROV-unrecognised', mod.loc(rg), ok, 'the complement is taken after the residue was repaired (rebuilt atoms are in the match)', key='PROV-unrecognised|after-repair')
-    shared.reference_residue_rules(ck, 'PROV-reference')
-    shared.truthy_zero(ck, [RG])
-    shared.runs_every_molecule(ck, 'vermouth/processors/repair_graph.py', 'RepairGraph', 'MPT-every-molecule')
-    ck.assume('that the search returns a largest match and that the result is invariant under renaming/permutation depend on the ISMAGS search outcome (C06, not applicable)')
+    ck.ob(rule, mod.loc(rg), ok, 'the complement is taken after the residue was repaired (rebuilt atoms are in the match)', key=rule + '|after-repair')
